@@ -15,6 +15,7 @@ EXPLANATION = (
     "through a flag), both expiries exist, the lifetime test does not depend on the linger state, all under the housekeeper lock, and every server loop drives housekeeping; the client iterator drops its proxy on exhaustion and sends close_stream only while connected. "
     "Also decided: removal in the error handler cannot raise; single results pass _streamResponse; the client tests the stream flag before the accompanying exception; housekeeping deletes only after a fresh look-up; the out-of-sync close uses a copy of the stream's proxy; the stream table is per daemon. "
     "virtual time."
+    'Also decided (round 8): PYRO_* environment settings (ITER_STREAM_LINGER=0, ITER_STREAMING=off) are stored as converted, not through a truthiness fallback. '
     "Not decided (most of the property): item order, no loss/duplication, interleavings of next/close/reconnect/housekeeping, "
 )
 
@@ -229,6 +230,8 @@ def run(ctx, R, tier):
         R.check(bool(which) and locked, "C10-R5", "_housekeeping|delete#%d" % i,
                 "the delete happens only when a measured period exceeds the configured %s, under the housekeeper lock" % ("/".join(which) or "limit"), hk.loc(st),
                 "a stream can be dropped by housekeeping without its lifetime/linger period having passed (or outside the lock)")
+    from .common import config_env_value_stored_as_converted
+    config_env_value_stored_as_converted(ctx, R, "C10-R5", "ITER_STREAM_LINGER=0 (drop streams with their connection) and ITER_STREAMING=off are settings of this kind")
     R.check(covered == {"ITER_STREAM_LIFETIME", "ITER_STREAM_LINGER"}, "C10-R5", "_housekeeping|both-expiries", "both the lifetime and the linger expiry are applied", hk.loc(),
             "expiry kinds applied: %s" % sorted(covered))
     # the lifetime comparison is evaluated for every stream, whatever its linger state
